@@ -9,82 +9,12 @@
 
 #![allow(clippy::type_complexity, clippy::too_many_arguments)]
 
-pub mod panics;
-pub mod props;
-#[cfg(feature = "quinn")]
-pub mod quinnrig;
-pub mod racerig;
-pub mod refimpl;
-pub mod report;
-pub mod sim;
-pub mod util;
-
-use report::{EvidenceMeta, KnownFindings, Report};
 use serde_json::{json, Value};
 use std::sync::atomic::{AtomicBool, AtomicU64, Ordering};
 use std::sync::{Arc, Mutex};
 use std::time::Instant;
-
-#[derive(Clone, Copy, Debug, PartialEq, Eq)]
-pub enum Tier {
-    Quick,
-    Thorough,
-    /// tiny workloads for Miri / sanitizer builds
-    Lite,
-}
-
-impl Tier {
-    pub fn name(self) -> &'static str {
-        match self {
-            Tier::Quick => "quick",
-            Tier::Thorough => "thorough",
-            Tier::Lite => "lite",
-        }
-    }
-    pub fn pick(self, lite: u64, quick: u64, thorough: u64) -> u64 {
-        match self {
-            Tier::Lite => lite,
-            Tier::Quick => quick,
-            Tier::Thorough => thorough,
-        }
-    }
-}
-
-#[derive(Clone, Debug)]
-pub struct Gen {
-    pub name: &'static str,
-    pub count: u64,
-    /// the generator enumerates a finite sub-domain completely when all `count` cases run
-    pub exhaustive: bool,
-}
-
-impl Gen {
-    pub fn new(name: &'static str, count: u64) -> Self {
-        Gen {
-            name,
-            count,
-            exhaustive: false,
-        }
-    }
-    pub fn exhaustive(name: &'static str, count: u64) -> Self {
-        Gen {
-            name,
-            count,
-            exhaustive: true,
-        }
-    }
-}
-
-pub struct PropDef {
-    pub id: &'static str,
-    pub rule: &'static str,
-    pub assumptions: fn() -> Vec<String>,
-    pub gens: fn(Tier) -> Vec<Gen>,
-    /// run one case; all randomness must come from `seed`
-    pub run_case: fn(gen: &str, index: u64, seed: u64, tier: Tier, rep: &mut Report),
-    /// coverage floors etc. on the merged report
-    pub finish: fn(Tier, &mut Report),
-}
+use vcheck::report::{self, EvidenceMeta, KnownFindings, Report};
+use vcheck::{panics, props, util, Gen, PropDef, Tier};
 
 fn arg_val(args: &[String], name: &str) -> Option<String> {
     args.iter()
@@ -132,9 +62,21 @@ fn guarded_case(p: &PropDef, gen: &str, index: u64, seed: u64, tier: Tier, rep: 
     rep.cur_seed = seed;
     fastrand::seed(seed ^ 0x5eed);
     panics::clear();
+    vcheck::sim::spin_reset();
+    let _ = vcheck::sim::spin_take();
     let r = std::panic::catch_unwind(std::panic::AssertUnwindSafe(|| {
         (p.run_case)(gen, index, seed, tier, rep);
     }));
+    if let Some(d) = vcheck::sim::spin_take() {
+        // h3 busy-looped inside one poll: the call under test can never complete (the simulated
+        // transport broke the loop with a panic after SPIN_LIMIT calls)
+        rep.violation(
+            format!("{}/spins-inside-poll[{}]", p.id, d.split(' ').next().unwrap_or("")),
+            format!("h3 kept calling the transport without ever returning Pending or Ready: {}", d),
+            json!({"spin": d}),
+        );
+        return;
+    }
     if r.is_err() {
         let info = panics::take().unwrap_or_default();
         if info.in_repo() {
